@@ -249,3 +249,38 @@ def judge_py(ys, db, roots):
     """For pythonic walks compare pythonised values."""
     conv = {k: ("py", rig.pythonized(v)) for k, v in db.items()}
     return judge(ys, conv, roots)
+
+
+def boundary_cases():
+    """
+    Deterministic (label, roots, db) cases at structural boundaries that a random
+    generator all but never produces: the zero-length root (the whole MIB view),
+    more than 256 roots in one walk, instance OIDs of exactly 126/127/128
+    sub-identifiers (128 is the SMI maximum), sub-identifiers at the BER and
+    32-bit boundaries, a root that is a single arc.
+    """
+    out = []
+    whole = {(0, 0): ("int", 4), (0, 39, 1): ("int", 5), (1, 3, 1, 1): ("int", 1), (1, 3, 2, 5): ("str", b"x"), (1, 39, 7): ("int", 6), (2, 5, 1): ("int", 3), (2, 39, 4): ("tt", 9)}
+    out.append(("empty-root", [()], whole))
+    out.append(("empty-root-empty-view", [()], {}))
+    for n in (256, 257, 300):
+        roots = [(1, 3, 6, 1, 4, 1, i) for i in range(1, n + 1)]
+        db = {r + (1,): ("int", i) for i, r in enumerate(roots)}
+        db.update({r + (2, 0): ("int", -i) for i, r in enumerate(roots[::3])})
+        out.append(("%d-roots" % n, roots, db))
+    root = (1, 3, 6, 1, 4, 1, 9)
+    long_db = {root + (1,) * k: ("int", k) for k in (1, 100, 118, 119, 120, 121)}
+    long_db[root + (2,) * 121] = ("str", b"last")
+    long_db[(1, 3, 6, 1, 4, 1, 10, 0)] = ("int", 0)
+    out.append(("oids-of-126-127-128-arcs", [root], long_db))
+    root2 = (1, 3, 6, 1, 4, 1, 11)
+    two = dict(long_db)
+    two.update({root2 + (7,) * k: ("int", k) for k in (119, 120, 121)})
+    out.append(("two-roots-128-arcs", [root, root2], two))
+    arcs = (0, 1, 127, 128, 16383, 16384, 2**21 - 1, 2**21, 2**28 - 1, 2**28, 2**31 - 1, 2**31, 2**32 - 2, 2**32 - 1)
+    big = {root + (a,): ("int", i) for i, a in enumerate(arcs)}
+    big.update({root + (a, a): ("int", -i) for i, a in enumerate(arcs)})
+    big[root[:-1] + (2**32 - 1, 1)] = ("int", 0)
+    out.append(("arc-boundaries", [root], big))
+    out.append(("arc-boundary-roots", [root + (2**32 - 1,), root + (127,), root + (128,), root + (2**31,)], big))
+    return out
